@@ -447,6 +447,9 @@ fn build_matcher_tree(
     // multiple-character flags don't start with a double dash
     let mut i = arg_index;
     let mut invert_next_matcher = false;
+    // Set by an operator ('!', -a, -o, ','), cleared by the operand that
+    // follows it: another binary operator or a ')' in between is an error.
+    let mut expecting_operand = false;
     while i < args.len() {
         let possible_submatcher = match args[i] {
             "-print" => Some(Printer::new(PrintDelimiter::Newline, None).into_box()),
@@ -780,9 +783,17 @@ fn build_matcher_tree(
                     )));
                 }
                 invert_next_matcher = !invert_next_matcher;
+                expecting_operand = true;
                 None
             }
             "-and" | "-a" => {
+                if expecting_operand {
+                    return Err(From::from(format!(
+                        "invalid expression; you have used a binary operator \
+                         '{}' with nothing before it.",
+                        args[i]
+                    )));
+                }
                 if !are_more_expressions(args, i) {
                     return Err(From::from(format!(
                         "expected an expression after {}",
@@ -790,9 +801,17 @@ fn build_matcher_tree(
                     )));
                 }
                 top_level_matcher.check_new_and_condition()?;
+                expecting_operand = true;
                 None
             }
             "-or" | "-o" => {
+                if expecting_operand {
+                    return Err(From::from(format!(
+                        "invalid expression; you have used a binary operator \
+                         '{}' with nothing before it.",
+                        args[i]
+                    )));
+                }
                 if !are_more_expressions(args, i) {
                     return Err(From::from(format!(
                         "expected an expression after {}",
@@ -800,9 +819,17 @@ fn build_matcher_tree(
                     )));
                 }
                 top_level_matcher.new_or_condition(args[i])?;
+                expecting_operand = true;
                 None
             }
             "," => {
+                if expecting_operand {
+                    return Err(From::from(format!(
+                        "invalid expression; you have used a binary operator \
+                         '{}' with nothing before it.",
+                        args[i]
+                    )));
+                }
                 if !are_more_expressions(args, i) {
                     return Err(From::from(format!(
                         "expected an expression after {}",
@@ -810,6 +837,7 @@ fn build_matcher_tree(
                     )));
                 }
                 top_level_matcher.new_list_condition()?;
+                expecting_operand = true;
                 None
             }
             "(" => {
@@ -949,6 +977,7 @@ fn build_matcher_tree(
             break;
         }
         if let Some(submatcher) = possible_submatcher {
+            expecting_operand = false;
             if invert_next_matcher {
                 top_level_matcher.new_and_condition(NotMatcher::new(submatcher));
                 invert_next_matcher = false;
